@@ -170,7 +170,12 @@ func mergeStates(ins []edgeIn) (*State, error) {
 	for i, e := range live {
 		conds[i] = e.cond
 	}
-	out.Reach = Or(conds...)
+	out.Reach = factoredReach(conds)
+	// selectors of the merged values: the edge conditions without the conjuncts they all share (the
+	// path condition up to the branch). Under out.Reach the shared part holds, so the values are the
+	// same; the terms no longer depend on where the function was called from, which lets identical
+	// computations at different sites hash-cons to identical terms.
+	conds = relativeConds(conds)
 	out.Epoch = live[0].st.Epoch
 	for _, e := range live[1:] {
 		if e.st.Epoch != out.Epoch {
